@@ -93,7 +93,7 @@ class CachedStore(Entity):
 
         # Cache storage
         self._cache: dict[str, Any] = {}
-        self._dirty_keys: set[str] = set()  # For write-back
+        self._dirty_keys: dict[str, None] = {}  # write-back; insertion-ordered set: flush order must not depend on PYTHONHASHSEED
         # Write-through puts issued by this cache that have not reached the backing store yet
         self._puts_in_flight: dict[str, int] = {}
 
@@ -221,7 +221,7 @@ class CachedStore(Entity):
                     del self._puts_in_flight[key]
         else:
             # Mark as dirty for later writeback
-            self._dirty_keys.add(key)
+            self._dirty_keys[key] = None
             yield self._cache_read_latency  # Just cache write latency
 
     def delete(self, key: str) -> Generator[float, None, bool]:
@@ -285,7 +285,7 @@ class CachedStore(Entity):
                 yield self._backing_store.write_latency
                 if key in self._dirty_keys and key in self._cache:
                     self._backing_store.put_sync(key, self._cache[key])
-                    self._dirty_keys.discard(key)
+                    self._dirty_keys.pop(key, None)
                     self._writebacks += 1
                     flushed += 1
         return flushed
@@ -300,7 +300,7 @@ class CachedStore(Entity):
                     break
                 self._write_back_evicted(evict_key)
                 self._cache.pop(evict_key, None)
-                self._dirty_keys.discard(evict_key)
+                self._dirty_keys.pop(evict_key, None)
                 self._evictions += 1
 
             self._eviction_policy.on_insert(key)
@@ -323,7 +323,7 @@ class CachedStore(Entity):
     def _cache_remove(self, key: str) -> None:
         """Remove an entry from cache."""
         self._cache.pop(key, None)
-        self._dirty_keys.discard(key)
+        self._dirty_keys.pop(key, None)
         self._eviction_policy.on_remove(key)
 
     def contains_cached(self, key: str) -> bool:
